@@ -7,12 +7,20 @@ spec:     spec/UpdateFile.tla: one behaviour = one call of debian_support.update
           FetchIndex, ChooseHash, UpToDate | PlanPatches | NoPlan, DownloadPatch / VerifyPatch /
           ApplyPatch per patch, VerifyResult | FullDownload, OpenNew, WriteNew*, CloseNew, Rename,
           CleanupNew, Return | Raise) over the file-system variables local and dotNew.
+          Consecutive calls in one process (Runs = 2): after Return / Raise the repository moves on
+          (Republish: a version appended under the same URL, the same under another URL, another
+          repository under another URL) and the actions run again from the file system the first
+          call left; the invariants are per call (current content at the time of the call, local
+          content at the start of the call); nothing but the file system is carried over.
 TLC:      MC_UpdateFile.cfg, closed for <= 4 versions: Converges, NeverCorrupt, NoTempLeft,
           AlwaysOldOrNew (every state), FaultRaises, IndexFaultConverges, HashFaultWritesNothing,
           GarbledNeverApplied, ByPatchesWhenListed, no deadlock before the end;
           MC_UpdateFile_live.cfg: termination under weak fairness.
+          MC_UpdateFile_runs.cfg: two calls, <= 3 versions at the second, at most one faulty call.
           Spec-level negative controls (Mode = noCleanup | skipVerifyResult | renameBeforeVerify |
-          skipVerifyPatch) must each violate the named invariant -- checked in every run.
+          skipVerifyPatch; RememberIndex = TRUE: the second call re-uses the index the first call
+          parsed for the same URL) must each violate the named invariant -- noCleanup and
+          RememberIndex in every run, all five in the thorough tier.
 binding:  (a) spec -> code: every terminal behaviour of the closed model (CASE lines carrying TLC's
               terminal state) is concretized into a file:// repository (gzip'ed full file, Index in
               the SHA1 / SHA256 flavours the interpreter supports, gzip'ed ed scripts from an
@@ -21,14 +29,20 @@ binding:  (a) spec -> code: every terminal behaviour of the closed model (CASE l
               open / os.rename / os.replace for local + '.new', (ii) implementation-agnostic write
               faults by RLIMIT_FSIZE + ignored SIGXFSZ in a forked child.  Verdict observables:
               outcome (returned / raised), local file bytes, returned lines, local + '.new'.
-          (b) code -> spec: random histories (<= 8 versions, <= 30 lines, random fault) executed on
+              Two-call behaviours are replayed in ONE Python process (same imported module, same
+              local path; the repository files are rewritten in place when the URL stays, written
+              to a second directory when the call uses another URL), a fault in either call.
+              Every behaviour gets URLs and a local path of its own (symbolic links), so that
+              state kept per URL / file name can leak only between the calls of one behaviour and
+              a recorded case reproduces in isolation.
+          (b) code -> spec: random histories (<= 8 versions, <= 30 lines, random fault; for half of
+              them a second call after the repository moved on / was exchanged) executed on
               the real function with a recorder on open/rename/unlink/urlopen/urlretrieve; the event
               list and the final file-system state are validated by TLC (spec/TraceUpdateFile.tla).
               A trace rejected with its events is re-validated on the verdict observables alone:
               only that rejection is a violation, a step-order mismatch is spec drift.
 domain:   D6 (unusable index = absent, empty, or rejected by the PackageFile grammar), D7 (no line
-          that is exactly '.'); texts are newline-terminated lines without '\\r'; a SHA256 index is
-          exercised only when the interpreter provides the _sha256 module debian_support needs.
+          that is exactly '.'); texts are newline-terminated lines without '\\r'.
 """
 import copy
 import json
@@ -41,8 +55,8 @@ import c19_repo as R
 
 MANIFEST = dict(
     technique="TLA+ spec UpdateFile (one action per step of update_file/download_file/replace_file over the file-system variables local and local+'.new', one fault per behaviour) model-checked by TLC in a closed configuration; every terminal behaviour replayed into the real function on generated file:// repositories with injected faults (wrapped open/rename and RLIMIT_FSIZE); recorded executions validated by TLC (TraceUpdateFile)",
-    text="TLC explores every call of update_file over all histories of at most 4 published versions (content ids, repeats allowed) x how far back the index reaches x local copy absent / at any version / current / foreign x one fault (each patch corrupted or truncated, last patch consistent with the index but producing a wrong result, wrong Current hash, index missing / garbage / empty, open, k-th write, close or rename failing) and checks in every state that the local file is the old or the new content, that a returned call left and returned the current content, that a raised call left the local file untouched and no '.new', that exactly the reached hash and write faults raise, and that every call terminates. Each terminal behaviour, with TLC's terminal state as expectation, is concretized (texts, ed scripts from an independent differ, gzip files, Index in SHA1/SHA256 flavours, field order, padding) and replayed into the real function, write faults both through a wrapped open()/os.rename and implementation-agnostically through RLIMIT_FSIZE in a forked child. In the other direction random histories of up to 8 versions and 30 lines with a random fault are executed with a recorder on the file-system and download calls and TLC must explain the observed step sequence and final state with the specification's actions.",
-    note="Small-scope for the exhaustive part (<= 4 versions, 0-3 write calls); texts are sampled. Verdict observables: outcome, local file bytes, returned lines, '.new' after an error; step order, exception types, '.new' after success and left-over download temp files are diagnostics (spec_drift). Unspecified and not generated: indexes that parse but have a wrong column count or name unknown patches (D6), lines that are exactly '.', '\\r', non-UTF-8 local files, missing patch files. Write faults injected through wrappers count only when the wrapper fired (else skipped; > 5 % skipped is a machinery failure). Four spec-level negative controls and corrupted control traces are required to fail in every run.",
+    text="TLC explores every call of update_file over all histories of at most 4 published versions (content ids, repeats allowed) x how far back the index reaches x local copy absent / at any version / current / foreign x one fault (each patch corrupted or truncated, last patch consistent with the index but producing a wrong result, wrong Current hash, index missing / garbage / empty, open, k-th write, close or rename failing) and checks in every state that the local file is the old or the new content, that a returned call left and returned the current content, that a raised call left the local file untouched and no '.new', that exactly the reached hash and write faults raise, and that every call terminates. A second configuration lets the repository move on after the first call (a version appended under the same URL, under another URL, or another repository) and runs a second call in the same process from the file system the first one left, with the same invariants per call and a fault in either call. Each terminal behaviour, with TLC's terminal state as expectation, is concretized (texts, ed scripts from an independent differ, gzip files, Index in SHA1/SHA256 flavours, field order, padding) and replayed into the real function, write faults both through a wrapped open()/os.rename and implementation-agnostically through RLIMIT_FSIZE in a forked child; two-call behaviours run in one Python process on the same local path with the repository rewritten in between. In the other direction random histories of up to 8 versions and 30 lines with a random fault (half of them followed by a second call after the repository moved on) are executed with a recorder on the file-system and download calls and TLC must explain the observed step sequence and final state with the specification's actions.",
+    note="Small-scope for the exhaustive part (<= 4 versions, 0-3 write calls); texts are sampled. Verdict observables: outcome, local file bytes, returned lines, '.new' after an error; step order, exception types, '.new' after success and left-over download temp files are diagnostics (spec_drift). Unspecified and not generated: indexes that parse but have a wrong column count or name unknown patches (D6), lines that are exactly '.', '\\r', non-UTF-8 local files, missing patch files. Write faults injected through wrappers count only when the wrapper fired (else skipped; > 5 % skipped is a machinery failure). The two-call model is small (<= 3 versions, one write, at most one faulty call); the quick tier replays a seeded stratified sample of its behaviours. Spec-level negative controls (five, incl. RememberIndex: index of the first call re-used by the second; two of them in the quick tier) and corrupted control traces (incl. a stale second call) are required to fail in every run.",
     design="5 (C19)")
 
 NEG_CONTROLS = [("noCleanup", "NeverCorrupt"), ("skipVerifyResult", "Converges"),
@@ -191,7 +205,7 @@ def run(ctx):
         "trusted: TLC, gzip/hashlib/difflib (and diff -e) as repository builders, the projection of file bytes to content ids",
     ]
     flavs = flavour_sets(ctx)
-    nproc = 4 if quick else 6
+    nproc = 6 if quick else 8
     pool = multiprocessing.get_context("fork").Pool(nproc)
     try:
         _run(ctx, quick, flavs, pool)
@@ -216,7 +230,8 @@ def _sample2(rng, cases2, budget):
     for i, c in enumerate(cases2):
         p = c["prev"]
         key = (c["in"]["rep"], p["in"]["fault"]["k"], c["in"]["fault"]["k"], p["pc"], c["pc"],
-               p["in"]["local0"] == R.ABSENT, any(x["a"] == "FullDownload" for x in c["path"]))
+               p["in"]["local0"] == R.ABSENT, any(x["a"] == "FullDownload" for x in p["path"]),
+               any(x["a"] == "FullDownload" for x in c["path"]), c["in"]["hist"][-1] == p["in"]["hist"][-1])
         groups.setdefault(key, []).append(i)
     keys = sorted(groups, key=repr)
     for k in keys:
@@ -238,17 +253,34 @@ def _sample2(rng, cases2, budget):
 def _run(ctx, quick, flavs, pool):
     phase = ctx.extra.setdefault("phase_wall_s", {})
     t0 = time.time()
-    # 1. emission: every terminal behaviour of the closed models, with TLC's terminal state
+    # 1. emission: every terminal behaviour of the closed models, with TLC's terminal state; the
+    #    single-call model and the model of two consecutive calls are emitted side by side
+    from concurrent.futures import ThreadPoolExecutor
     emit_cfg = _cfg("MC_UpdateFile_emit_quick.cfg" if quick else "MC_UpdateFile_emit.cfg", FlavourSets=tla_set(flavs))
-    r_emit = ctx.tlc_must_hold("UpdateFile", emit_cfg, workers=1, want_tags={"CASE"})
+    with ThreadPoolExecutor(2) as ex:
+        f1 = ex.submit(ctx.tlc_must_hold, "UpdateFile", emit_cfg, workers=1, want_tags={"CASE"}, count=False)
+        f2 = ex.submit(ctx.tlc_must_hold, "UpdateFile", _cfg("MC_UpdateFile_runs.cfg", FlavourSets=tla_set(flavs[:1])),
+                       workers=1, want_tags={"CASE"}, count=False)
+        r_emit, r_runs = f1.result(), f2.result()
+    for r in (r_emit, r_runs):
+        ctx.states += r.distinct
+        ctx.transitions += r.generated
     cases = _cases(r_emit)
     if not cases:
         raise core.MachineryError("UpdateFile emitted no CASE lines")
+    cases2 = _cases(r_runs)
+    if not cases2 or any(c.get("prev", {}).get("pc", "none") == "none" for c in cases2):
+        raise core.MachineryError("UpdateFile (Runs = 2) emitted no / malformed two-call CASE lines")
     phase["emission"] = round(time.time() - t0, 1)
     nvar = 1 if quick else (2 if len(cases) < 20000 else 1)
     tasks = []
     for idx, c in enumerate(cases):
-        vs = ["canonical"] + ["random%d" % j for j in range(nvar)]
+        if quick:       # every behaviour once, plainest and sampled concretization alternating
+            vs = ["canonical"] if (idx + ctx.seed) % 2 == 0 else ["random0"]
+        elif nvar == 1:  # many behaviours (all hash flavours): sampled once, every third also in plainest form
+            vs = ["random0"] + (["canonical"] if idx % 3 == 0 else [])
+        else:
+            vs = ["canonical"] + ["random%d" % j for j in range(nvar)]
         f = c["in"]["fault"]
         if f["k"] == "writeFails" and 1 <= f["i"] <= c["in"]["nw"]:
             vs.append("rlimit")
@@ -262,13 +294,6 @@ def _run(ctx, quick, flavs, pool):
     trace_async = pool.map_async(R.record_chunk, [(ctx.work, ctx.seed, ch, topts) for ch in tchunks], chunksize=1)
 
     # 1b. two consecutive calls in one process (the repository moves on in between)
-    t0 = time.time()
-    r_runs = ctx.tlc_must_hold("UpdateFile", _cfg("MC_UpdateFile_runs.cfg", FlavourSets=tla_set(flavs[:1])),
-                               workers=1, want_tags={"CASE"})
-    cases2 = _cases(r_runs)
-    if not cases2 or any(c.get("prev", {}).get("pc", "none") == "none" for c in cases2):
-        raise core.MachineryError("UpdateFile (Runs = 2) emitted no / malformed two-call CASE lines")
-    phase["emission_two_calls"] = round(time.time() - t0, 1)
     if quick:
         picked, ngroups = _sample2(ctx.rng, cases2, 900)
     else:
@@ -292,20 +317,20 @@ def _run(ctx, quick, flavs, pool):
         if r.violated != inv:
             raise core.MachineryError("negative control %s: expected %s to fail, TLC says %r" % (mode, inv, r.violated))
         return inv
-    from concurrent.futures import ThreadPoolExecutor
     # quick: two of the five negative controls, thorough: all
     controls = ([NEG_CONTROLS[0]] if quick else NEG_CONTROLS) + [("RememberIndex", "Converges")]
     t1 = time.time()
     with ThreadPoolExecutor(3 + len(controls)) as ex:
         f_main = ex.submit(ctx.tlc_must_hold, "UpdateFile", "MC_UpdateFile_quick.cfg" if quick else "MC_UpdateFile.cfg",
                            workers=4 if quick else 8, count=False)
-        # termination: quick = part of the emission run (<= 3 versions), thorough = <= 4 versions
-        f_live = None if quick else ex.submit(ctx.tlc_must_hold, "UpdateFile", "MC_UpdateFile_live.cfg", workers=2, count=False)
+        # termination under weak fairness: quick <= 3 versions, thorough <= 4 versions
+        f_live = ex.submit(ctx.tlc_must_hold, "UpdateFile",
+                           _cfg("MC_UpdateFile_live.cfg", MaxN=2) if quick else "MC_UpdateFile_live.cfg", workers=2, count=False)
         f_neg = {mode: ex.submit(neg, mode, inv) for mode, inv in controls}
-        r_main, r_live = f_main.result(), (f_live.result() if f_live else r_emit)
+        r_main, r_live = f_main.result(), f_live.result()
         neg = {mode: f.result() for mode, f in f_neg.items()}
     phase["design_tlc"] = round(time.time() - t1, 1)
-    for r in ((r_main,) if quick else (r_main, r_live)):          # counted here, not in the threads
+    for r in (r_main, r_live):          # counted here, not in the threads
         ctx.states += r.distinct
         ctx.transitions += r.generated
     ctx.extra["model"] = {"closed_config": {"MaxN": 3, "Sizes": [0, 2], "FlavourSets": [["SHA1", "SHA256"]] if quick else ALL_FLAVOURS,
